@@ -3,10 +3,9 @@
    skipped, and which exception each failing step raises.  No proofs in this file.
 
    What a netlist is, for the comparer (everything it can read):
-     netlist  : name, EDIF.original_identifier, top instance, libraries (ordered),
-                "indexed" = the namespace manager knows the names of the elements (true for a
-                netlist built or parsed through the API, false for the result of Netlist.clone(),
-                whose construction bypasses the callbacks)
+     netlist  : name, EDIF.original_identifier, top instance, libraries (ordered)
+                (the namespace manager knows the names of all elements: true for every netlist
+                built, parsed or - since the repair of clone() - cloned through the API)
      library  : name, original identifier, definitions (ordered)
      definition: name, original identifier, ports, cables, children (ordered)
      port     : name, original identifier, direction, is_array, number of pins (lower index kept,
@@ -15,7 +14,7 @@
      pin      : inner pin = (name of its port, index in that port);
                 outer pin = (name of its instance, name of the port of the inner pin, index);
                 the instance of an outer pin is the child of the enclosing definition with that
-                name (names of siblings are unique in an indexed netlist), its reference gives
+                name (names of siblings are unique: the namespace manager refuses duplicates), its reference gives
                 the definition/library names of the inner pin's port (Instance._pins mirrors the
                 reference: property C02);
                 dangling outer pin = pin of an instance that was removed from its definition
@@ -83,10 +82,7 @@ Record defn := mkdefn {
 Record lib := mklib { l_name : oname; l_oid : oname; l_defs : list defn }.
 
 Record nv := mknv {
-  n_name : oname; n_oid : oname; n_top : option inst; n_libs : list lib; n_indexed : bool }.
-
-(* Netlist.clone(): same structure, names unknown to the namespace manager *)
-Definition clone_of (a : nv) : nv := mknv (n_name a) (n_oid a) (n_top a) (n_libs a) false.
+  n_name : oname; n_oid : oname; n_top : option inst; n_libs : list lib }.
 
 (* ---------- outcomes ---------- *)
 Inductive outcome :=
@@ -96,12 +92,13 @@ Inductive outcome :=
 | IndexErr    (* name.split("_")[3], properties_composer[x] *)
 | KeyErr      (* properties_composer[x][key] *)
 | AttrErr     (* attribute of None *)
+| TypeErr     (* "..." + None while building the message of a failing assert *)
 | Ill.        (* the value is not the abstraction of a netlist the model covers *)
 
 Definition outcome_eqb (a b : outcome) : bool :=
   match a, b with
   | Accept, Accept | Reject, Reject | StopIter, StopIter | IndexErr, IndexErr
-  | KeyErr, KeyErr | AttrErr, AttrErr | Ill, Ill => true
+  | KeyErr, KeyErr | AttrErr, AttrErr | TypeErr, TypeErr | Ill, Ill => true
   | _, _ => false
   end.
 
@@ -140,11 +137,11 @@ Definition scan_match {A} (name : A -> oname) (skip_unnamed : bool) (pat : str) 
   end.
 
 (* next(sdn.get_xxx(parent, pat)): first result or nothing.  An absolute pattern is answered by
-   the namespace manager's table of the parent (empty when the parent was never announced to
-   the manager); otherwise the children are scanned in order. *)
-Definition lookup {A} (name : A -> oname) (skip_unnamed indexed : bool) (pat : str) (l : list A)
+   the namespace manager's table of the parent (sibling names are unique there, property C10:
+   the table holds exactly the named children); otherwise the children are scanned in order. *)
+Definition lookup {A} (name : A -> oname) (skip_unnamed : bool) (pat : str) (l : list A)
   : option A :=
-  if absolute pat then (if indexed then find (has_name name pat) l else None)
+  if absolute pat then find (has_name name pat) l
   else find (scan_match name skip_unnamed pat) l.
 
 (* for orig in origs: if orig.name is None: continue; [if skip: continue];
@@ -282,7 +279,10 @@ Definition inst_equiv (o c : opin) : outcome :=
              end
            else check (str_eqb on cn)
          end
-       else check (oname_eqb (Some on) (op_inst c))
+       else match op_inst c with
+            | Some cn => check (str_eqb on cn)
+            | None => TypeErr   (* "Names are not the same " + orig_name + " " + None *)
+            end
      end)
     (if oname_eqb (fst (op_ref o)) (fst (op_ref c)) && oname_eqb (snd (op_ref o)) (snd (op_ref c))
      then
@@ -381,28 +381,28 @@ Definition cmp_inst (o c : option inst) : outcome :=
 (* ---------- compare_definition / compare_libraries / compare ---------- *)
 Definition no_skip {A} (_ : A) : bool := false.
 
-Definition cmp_def (ix : bool) (lo lc : oname) (o c : defn) : outcome :=
+Definition cmp_def (lo lc : oname) (o c : defn) : outcome :=
   let xo := (d_name o, lo) in
   let xc := (d_name c, lc) in
   seq (check (oname_eqb (d_name o) (d_name c)))
  (seq (check (oname_eqb (d_oid o) (d_oid c)))
  (seq (check (Nat.eqb (length (d_ports o)) (length (d_ports c))))
- (seq (cmp_each p_name no_skip (fun n => lookup p_name false ix n (d_ports c))
+ (seq (cmp_each p_name no_skip (fun n => lookup p_name false n (d_ports c))
                 (cmp_port xo xc) (d_ports o))
  (seq (check (Nat.eqb (length (d_cables o)) (length (d_cables c))))
- (seq (cmp_each c_name no_skip (fun n => lookup c_name false ix n (d_cables c))
+ (seq (cmp_each c_name no_skip (fun n => lookup c_name false n (d_cables c))
                 (cmp_cable xo xc (d_insts o) (d_insts c)) (d_cables o))
  (seq (check (Nat.eqb (length (d_insts o)) (length (d_insts c))))
- (seq (cmp_each i_name is_asg_inst (fun n => lookup i_name true ix n (d_insts c))
+ (seq (cmp_each i_name is_asg_inst (fun n => lookup i_name true n (d_insts c))
                 (fun a b => cmp_inst (Some a) (Some b)) (d_insts o))
       (cmp_assign o c)))))))).
 
-Definition cmp_lib (ix : bool) (o c : lib) : outcome :=
+Definition cmp_lib (o c : lib) : outcome :=
   seq (check (oname_eqb (l_name o) (l_name c)))
  (seq (check (oname_eqb (l_oid o) (l_oid c)))
  (seq (check (Nat.eqb (length (l_defs o)) (length (l_defs c))))
-      (cmp_each d_name no_skip (fun n => lookup d_name false ix n (l_defs c))
-                (cmp_def ix (l_name o) (l_name c)) (l_defs o)))).
+      (cmp_each d_name no_skip (fun n => lookup d_name false n (l_defs c))
+                (cmp_def (l_name o) (l_name c)) (l_defs o)))).
 
 Definition cmp_run (a b : nv) : outcome :=
   seq (check (oname_eqb (n_name a) (n_name b)))
@@ -412,8 +412,8 @@ Definition cmp_run (a b : nv) : outcome :=
        | ta, tb => cmp_inst ta tb
        end)
  (seq (check (Nat.eqb (length (n_libs a)) (length (n_libs b))))
-      (cmp_each l_name no_skip (fun n => lookup l_name false (n_indexed b) n (n_libs b))
-                (cmp_lib (n_indexed b)) (n_libs a))))).
+      (cmp_each l_name no_skip (fun n => lookup l_name false n (n_libs b))
+                cmp_lib (n_libs a))))).
 
 (* Comparer(a, b).compare() returns normally *)
 Definition compare (a b : nv) : bool := outcome_eqb (cmp_run a b) Accept.
@@ -483,7 +483,7 @@ Definition wf_top (t : option inst) : bool :=
   end.
 
 Definition wf_namedb (a : nv) : bool :=
-  n_indexed a && wf_top (n_top a) && named_ok l_name (n_libs a) && forallb wf_lib (n_libs a).
+  wf_top (n_top a) && named_ok l_name (n_libs a) && forallb wf_lib (n_libs a).
 
 Definition wf_named (a : nv) : Prop := wf_namedb a = true.
 
